@@ -40,7 +40,9 @@ def main():
                 print(f"{name}: cannot create worktree: {r.stdout[-200:]}")
                 bad += 1
                 continue
-            a = sh(f"git -C {wt} apply {os.path.join(d, 'patch.diff')}")
+            # patch_rebased.diff: the same change ported by hand onto a tree in which a later fix: commit touched the same lines
+            pf = os.path.join(d, "patch_rebased.diff") if os.path.exists(os.path.join(d, "patch_rebased.diff")) else os.path.join(d, "patch.diff")
+            a = sh(f"git -C {wt} apply {pf}")
             if a.returncode:
                 print(f"{name}: patch does not apply to the current tree ({a.stdout.strip()[:120]})")
                 continue
